@@ -195,5 +195,29 @@ def case_st(draw):
     return {"chain": chain, "ops": ops}
 
 
+def check_composition(spec, ctx):
+    """the same claim on real compositions: every consumer pull during an update must reach the time-stepped
+    source output exactly once with the composed shifted time (through pass-through adapters, chained delay
+    adapters and pull-based components), or not at all if a push-based adapter answers from its buffer"""
+    from .. import h_sched as S
+
+    outcome, msg, trace, _b = S.run(spec)
+    if outcome != "ok":
+        ctx.event(f"outcome={outcome}(not judged here)")
+        return
+    viol, stats = S.monitor(spec, trace, want=("C13",))
+    ctx.event("requests-checked", stats["requests_checked"])
+    nd = sum(1 for l in spec["links"] for a in l[2] if a[0] in hs.DELAYS)
+    ctx.nontrivial(nd >= 1 and stats["requests_checked"] >= 5)
+    for _p, tag, m, _ev in viol:
+        ctx.violation(tag, m)
+        return
+
+
 def parts():
-    return [Part("chains", check, strategy=case_st(), budget={"quick": 2500, "thorough": 60000})]
+    from .. import h_sched_gen as G
+
+    return [
+        Part("chains", check, strategy=case_st(), budget={"quick": 2500, "thorough": 60000}),
+        Part("compositions", check_composition, strategy=G.dag_spec(), budget={"quick": 800, "thorough": 40000}),
+    ]
